@@ -370,11 +370,11 @@ async fn h_read(req: &mut Req<'_>, st: &mut HState, len: usize) -> io::Result<us
 
 /// `hook` runs before every poll of the read (between two polls of one pending read the handler may use `&Request`
 /// methods, e.g. create an output writer and hand it to another sub-task).
-async fn h_read_hook(req: &mut Req<'_>, st: &mut HState, len: usize, hook: &mut (dyn FnMut(&Req<'_>, &HState) -> bool + Send)) -> io::Result<usize> {
+async fn h_read_hook(req: &mut Req<'_>, st: &mut HState, len: usize, hook: &mut (dyn FnMut(&mut Req<'_>, &mut HState) -> bool + Send)) -> io::Result<usize> {
     let mut buf = vec![0u8; len];
     st.ev("h_read", len as u64, 0);
     let r = poll_fn(|cx| {
-        if hook(&*req, &*st) {
+        if hook(&mut *req, &mut *st) {
             // the hook did something other sub-tasks should get a chance to react to before this read goes on
             cx.waker().wake_by_ref();
             return std::task::Poll::Pending;
@@ -721,7 +721,26 @@ async fn handler_seq(req: &mut Req<'_>, st: &mut HState) -> io::Result<ExitStatu
                     h_readv(req, st).await?;
                 } else {
                     let len = match st.weighted(&[4, 1, 2, 2, 1]) { 0 => st.range(1, 64), 1 => 0, 2 => 1, 3 => st.range(64, 5000), _ => 70000 };
-                    h_read(req, st, len).await?;
+                    if readers {
+                        // between two polls of one pending read the handler may advance to the next stream: whatever
+                        // the read then returns belongs to the newly selected stream
+                        let mut polls = 0u32;
+                        let mut hook = |rq: &mut Req<'_>, sth: &mut HState| {
+                            polls += 1;
+                            let Some(cur) = sth.active else { return false };
+                            if polls >= 2 && cur + 1 < sth.streams.len() && sth.chance(1, 6) {
+                                let t = RecordType::try_from(sth.streams[cur + 1]).expect("type");
+                                sth.ev("h_set_stream_between_polls", (cur + 1) as u64, 0);
+                                if let Err(p) = guard(|| rq.set_stream(t)) { sth.fail(Violation::new("c18_selection", "async_set_stream", format!("legal set_stream({t:?}) panicked: {p}"))); }
+                                sth.active = Some(cur + 1);
+                                sth.probe("stream_advanced_between_polls_of_a_read");
+                            }
+                            false
+                        };
+                        h_read_hook(req, st, len, &mut hook).await?;
+                    } else {
+                        h_read(req, st, len).await?;
+                    }
                 }
             }
             1 => { h_fill(req, st).await?; }
@@ -923,7 +942,7 @@ async fn handler_writers(req: &mut Req<'_>, st: &mut HState) -> io::Result<ExitS
             let mut stl = HState { final_reached: false, world: rworld, idx, mode: HandlerMode::Writers, active, streams: role_streams(u16::from(req_ref.role())), propagate: true };
             let mut to_spawn = late_n;
             let slot_r = slot_reader;
-            let mut hook = |rq: &Req<'_>, sth: &HState| {
+            let mut hook = |rq: &mut Req<'_>, sth: &mut HState| {
                 if to_spawn > 0 && sth.chance(1, 3) {
                     let t = if to_spawn % 2 == 0 { RecordType::Stderr } else { RecordType::Stdout };
                     let w = rq.output_stream(t);
@@ -1555,7 +1574,7 @@ fn first_begin(plan: &Plan, rp: &ReqPlan) -> usize {
 }
 
 
-pub const C09_PROBES: &[&str] = &["async_reselect_current", "vectored_read", "writeable_true_sampled", "writeable_false_sampled", "eof_observed", "filter_role"];
+pub const C09_PROBES: &[&str] = &["stream_advanced_between_polls_of_a_read", "async_reselect_current", "vectored_read", "writeable_true_sampled", "writeable_false_sampled", "eof_observed", "filter_role"];
 
 /// C09: async read interfaces and output gating.
 pub fn c09(cx: &mut Ctx) -> VResult {
